@@ -432,7 +432,7 @@ void run_category(Tok &k, const std::string &id)
     int qt = int(k.num());
     int n = int(k.num());
     CategoryFilter cf(rules);
-    if (qt) QLoggingCategory::setFilterRules(rules);
+    if (qt) QLoggingCategory::setFilterRules(QString(rules).replace(QLatin1Char(';'), QLatin1Char('\n')));
     std::ostringstream out;
     out << "R " << id;
     for (int i = 0; i < n; ++i) {
